@@ -22,6 +22,9 @@ tools/pinned/StoreOps.lean, never an alarm; a KNOWN shape with different content
   mutators   `Store::insert`, `remove`, `clear`: any sequence of the four known statements on `self.items`
              (validate_entry(..)?, insert, remove, clear) in SOURCE ORDER, threaded through the store value.
   readers    `keys`, `is_empty`, `len`, `contains_key` (one expression over `self.items` each), `iter`.
+  traits     the fields of `struct Store<T>` (must be the three the model accounts for), `Clone` and `Default` (derived, or
+             one hand-written struct literal: per field `self.f.clone()` / a default constructor), `PartialEq::eq` (through
+             the expression translator).
   listing    both `try_list_contents`: the text around the `if attributes.is_file() .. else if .. else ..` chain must be
              exactly the known walk (queue-driven for data, one `read_dir` for images); each arm is translated to
              collect / descend / refuse.  `Store::new` and the `#[default]` variant of `Item`.
@@ -346,6 +349,13 @@ class Expr:
             elif m == "keys" and a[0] == "items":
                 self.eat(")")
                 a = ("keys", a[1])
+            elif m == "len" and a[0] == "items":
+                self.eat(")")
+                a = ("nat", "%s.length" % a[1])
+            elif m == "all" and a[0] == "keys":
+                v, body = self.closure("key", lambda v: "%s.1" % v)
+                self.eat(")")
+                a = ("bool", "(%s.all fun %s => %s)" % (a[1], v, body))
             elif m == "any" and a[0] == "keys":
                 # the closure variable is an entry of the association list; as a path it is its key
                 v, body = self.closure("key", lambda v: "%s.1" % v)
@@ -878,6 +888,84 @@ def sec_listing(ds, ft):
 
 
 
+
+# ----------------------------------------------------------------------------------------------- Clone, Default, PartialEq
+
+KNOWN_FIELDS = ["items", "ufo_root", "impl_type"]
+FIELD_INIT = {"Default::default()": "default", "T::default()": "default", "PathBuf::new()": "default",
+              "HashMap::new()": "default"}
+
+
+def struct_init(body, what):
+    """`Self{f:e,..}` (canonical) -> [(field, how)]"""
+    m = re.fullmatch(r"(?:Self|Store)\{(.*)\}", body)
+    if not m:
+        raise NotFound(what + ": body is not one struct literal: " + body[:60])
+    out = []
+    for part in [x for x in re.split(r",(?![^()]*\))", m.group(1)) if x]:
+        fm = re.fullmatch(r"(\w+):(.*)", part)
+        if not fm:
+            raise NotFound(what + ": field initialiser " + part[:40])
+        f, e = fm.group(1), fm.group(2)
+        if e == "self.%s.clone()" % f:
+            how = "clone"
+        elif e in FIELD_INIT:
+            how = FIELD_INIT[e]
+        else:
+            raise NotFound("%s: unknown initialiser of %s: %s" % (what, f, e[:40]))
+        out.append((f, how))
+    return out
+
+
+def trait_impl(ds, trait):
+    m = re.search(r"\bimpl\s*<[^{]*>\s*" + trait + r"\s+for\s+Store\s*<\s*T\s*>[^{]*\{", ds)
+    return block_at(ds, m.end() - 1)[0] if m else None
+
+
+def sec_traits(ds, ft):
+    m = re.search(r"((?:#\[[^\]]*\]\s*)*)pub\s+struct\s+Store\s*<\s*T\s*>\s*\{", ds)
+    if not m:
+        raise NotFound("struct Store<T>")
+    derives = set()
+    for d in re.findall(r"#\[derive\(([^)]*)\)\]", m.group(1)):
+        derives |= set(x.strip() for x in d.split(","))
+    fields = re.findall(r"(?:^|,)(?:pub(?:\([a-z]+\))? )?(\w+):(?!:)", re.sub(r"<[^<>]*(<[^<>]*>)?[^<>]*>", "", canon(block_at(ds, m.end() - 1)[0])))
+    if fields != KNOWN_FIELDS:
+        # the model accounts for exactly these three; a store with other state is a shape it cannot speak about
+        raise NotFound("struct Store<T>: fields %s" % fields)
+    rows = {}
+    for trait, fn, how in (("Clone", "clone", "clone"), ("Default", "default", "default")):
+        impl = trait_impl(ds, trait)
+        if trait in derives and impl is None:
+            rows[trait] = [(f, how) for f in fields]      # a derived impl treats every field alike
+        elif impl is not None and trait not in derives:
+            params, body = fn_parts(impl, fn)
+            rows[trait] = struct_init(body, "%s for Store" % trait)
+        else:
+            raise NotFound("%s for Store: neither derived nor one impl block" % trait)
+    impl = trait_impl(ds, "PartialEq")
+    if impl is None:
+        raise NotFound("PartialEq for Store")
+    params, body = fn_parts(impl, "eq")
+    if len(params) != 1:
+        raise NotFound("PartialEq::eq: parameters")
+    other = params[0]
+    text = re.sub(r"\bself\.items\b", "a_items", body)
+    text = re.sub(r"\b%s\.items\b" % other, "b_items", text)
+    if re.search(r"\bself\b|\b%s\b" % other, text):
+        raise NotFound("PartialEq::eq: uses something else than the two key maps")
+    cond = translate_cond(text, {"a_items": ("items", "a.items"), "b_items": ("items", "b.items")})
+
+    def table(name, doc, rows_):
+        return ["/-- %s -/" % doc, "def %s : List (String × String) :=" % name,
+                "  [" + ", ".join("(\"%s\", \"%s\")" % r for r in rows_) + "]"]
+    return (["/-- the fields of `struct Store<T>`, in declaration order -/",
+             "def storeFields : List String := [" + ", ".join("\"%s\"" % f for f in fields) + "]"]
+            + table("cloneFields", "`Clone for Store<T>`: where each field of the clone comes from (`clone` = the field's own clone)",
+                    rows["Clone"])
+            + table("defaultFields", "`Default for Store<T>`: how each field of the default store is made", rows["Default"])
+            + ["/-- `PartialEq for Store<T>` -/", "def storeEq (a b : Store) : Bool :=", "  " + cond])
+
 # ----------------------------------------------------------------------------------------------- the write plan of save_impl
 
 def strip_map_err(stmt, what):
@@ -1093,7 +1181,7 @@ FOOTER2 = "end C16.PlanGen\n"
 SECTIONS2 = [("savePlan", sec_savePlan)]
 
 SECTIONS = [("validate", sec_validate), ("cell", sec_cell), ("mutators", sec_mutators), ("readers", sec_readers),
-            ("listing", sec_listing)]
+            ("listing", sec_listing), ("traits", sec_traits)]
 
 
 def split_sections(text):
